@@ -11,6 +11,7 @@ def check(ctx, rep):
     tok.tok_1_2(ctx, rep, pf.acc)
     tok.tok_3(ctx, rep, pf.acc)
     tok.tok_8(ctx, rep)
+    tok.tok_10(ctx, rep)
     tok.tok_4(ctx, rep)
     tok.tok_5(ctx, rep)
     tok.tok_6(ctx, rep)
